@@ -37,6 +37,8 @@ pub static SPECS: &[LangSpec] = &[
       "function f(a: number, b?: string): void {\n  return;\n}\n",
       "interface I { x: number; y?: A<B> }\ntype T = I | null;\n",
       "const v = <T>(x: T) => x as unknown;\n",
+      // anonymous node WITH children (alias(seq('unique','symbol'), 'unique symbol'))
+      "declare const s: unique symbol;\n",
     ],
   },
   LangSpec {
@@ -47,17 +49,20 @@ pub static SPECS: &[LangSpec] = &[
     corpus: &[
       "const e = <div className=\"x\">{a}<b/></div>;\n",
       "function C(p: P) { return <A {...p}>t</A> }\n",
+      "declare const s: unique symbol;\n",
     ],
   },
   LangSpec {
     lang: Python,
     name: "python",
     deep: true,
-    tokens: &["a", "b", "1", "'s'", "#c\n", "(", ")", ",", ":", "=", "+", "\n", "if", "é"],
+    tokens: &["a", "b", "1", "'s'", "#c\n", "(", ")", ",", ":", "=", "+", "\n", "if", "é", "not", "in"],
     corpus: &[
       "def f(a, b=1):\n    # note\n    return a + b\n\nf(1, 2)\n",
       "class A(B):\n    x = [i for i in y if i]\n    def m(self):\n        pass\n",
       "if a:\n    b()\nelif c:\n    d()\nelse:\n    e('é')\n",
+      // anonymous nodes WITH children: "not in" / "is not" are alias(seq(..)) in the grammar
+      "x = a not in b\ny = a is not b\nif a not in (b, c): pass\n",
     ],
   },
   LangSpec {
@@ -129,7 +134,7 @@ pub static SPECS: &[LangSpec] = &[
     name: "elixir",
     deep: false,
     tokens: &["a", "b", "1", "\"s\"", "#c\n", "(", ")", ",", "=", "+", "\n", "do", "end"],
-    corpus: &["defmodule A do\n  def f(a, b) do\n    a + b\n  end\nend\n"],
+    corpus: &["defmodule A do\n  def f(a, b) do\n    a + b\n  end\nend\n", "x = a not in b\n"],
   },
   LangSpec {
     lang: Go,
@@ -143,7 +148,7 @@ pub static SPECS: &[LangSpec] = &[
     name: "haskell",
     deep: false,
     tokens: &["a", "b", "1", "\"s\"", "{-c-}", "(", ")", ",", "=", "+", "\n", "::"],
-    corpus: &["f :: Int -> Int\nf a = a + 1\n"],
+    corpus: &["f :: Int -> Int\nf a = a + 1\n", "g = (# a, b #)\n"],
   },
   LangSpec {
     lang: Java,
